@@ -23,6 +23,12 @@
 (* all strings are cookie-octets (key: a token) nothing is rejected and    *)
 (* key, value, domain and path come back unchanged.                        *)
 (*                                                                         *)
+(* A Cookie OBJECT has no memory: what it renders and reports after being   *)
+(* refilled (Reset + setters, CopyTo, Parse, ResponseHeader.Cookie) is a     *)
+(* function of the refill alone (Build / ParseSC above take no earlier      *)
+(* state); the harness therefore demands fresh-vs-reused equality of the    *)
+(* serialisation and of every getter on every response vector.             *)
+(*                                                                         *)
 (* REQUEST side.  A sequence of SetCookie(k, v) is a jar (replace the      *)
 (* first entry with that key, append otherwise); it is rendered as one     *)
 (* Cookie header and parsed by the server (ReqParse).  Claim (ReqOK): the  *)
